@@ -55,6 +55,13 @@ PROPS["C04"] = {"units": ["print"], "kani": [], "replay": [], "title": "Printing
     "level_text": "String level: string_literal emits '\"' esc_str(s) '\"' for every string (proved); the container emitters emit only the documented separators and whitespace (proved). The re-parse half is the parser's contracts (C01/C02).",
     "level_note": _PRINT_NOTE + " The lemma that str_decode(lit(s)) == s is stated in DESIGN.md and not yet machine-checked.", "design_ref": "DESIGN.md §6.3"}
 
+PROPS["C20"] = {"units": [], "engine": "kani",
+    "kani": ["kindset_membership_len", "kindset_union_intersection", "kindset_with_kind_operands", "kindset_constants", "kindset_iteration", "value_kind_matches_variant"],
+    "replay": [], "title": "KindSet is a faithful finite set of value kinds", "level": "proof",
+    "level_text": "Complete proofs over the finite domain on the real compiled crate: six symbolic membership bits (all 64 sets), all operand pairs for | & |= &= in the four operand combinations, len/is_empty, the constants, and every interleaving of next/next_back with exact size hints (loops fully unwound, unwinding assertions on).",
+    "level_note": "CBMC's model of the compiled MIR; renderings (Display/as_disjunction/as_conjunction) are not covered by Kani (fmt is prohibitively expensive under CBMC) -- see the bounded stand-in",
+    "technique": "Kani/CBMC complete finite-domain harnesses on the real crate", "design_ref": "DESIGN.md §6.8"}
+
 NOT_APPLICABLE = {
     "C16": "serde Serializer/Deserializer plumbing: every deciding fact (derive expansion, number formatting, serde_json's shape) lives in dependencies whose behaviour would be assumed; no contract within reach decides it (DESIGN.md §7)",
     "C17": "same as C16: the deciding case analysis is inside json-number's Serialize/Deserialize; the in-repo ingredient (duplicate keys collapse through Object::insert) is covered by C06 (DESIGN.md §7)",
